@@ -225,6 +225,7 @@ QUICK_PQF = [
 ]
 
 KINDS = ["h1-origin-host", "h1-absolute", "h1-nohost", "h2-authority", "h2-hostonly", "h2-both", "h3-authority", "make"]
+BYTES_FORM_KINDS = ["h1-origin-host", "make"]  # URL given as bytes: only on these kinds
 QUICK_A_KINDS = ["h1-origin-host", "h1-absolute", "h2-authority", "h2-hostonly", "make"]  # Part A, quick tier
 
 
@@ -466,7 +467,9 @@ def expand_a(block):
         for form in ("str", "bytes"):
             e = ("url", si, hi, pi, pai, qi, fi, form)
             for kind in (KINDS if tag == "A" else QUICK_A_KINDS):
-                yield (kind, [e])
+                # the form only matters where the setter converts its argument, before any request state is read
+                if form == "str" or kind in BYTES_FORM_KINDS:
+                    yield (kind, [e])
 
 
 ENDERS = [e for e in B_EDITS if e[0] != "scheme"]
@@ -501,13 +504,13 @@ def chunk_fn(chunk):
 
 
 def run(ctx):
-    seqlen = ctx.pick(2, 4)
+    seqlen = ctx.pick(2, 3)
     ctx.bounds = {
         "schemes": [s[0] for s in SCHEMES],
         "hosts": [HOSTS[i][1][:40] for i in (range(len(HOSTS)) if ctx.thorough else QUICK_HOSTS)],
         "ports": [p[0] for p in ports_for(80, 443)],
         "path_query_fragment": "full product %dx%dx%d" % (len(PATHS), len(QUERIES), len(FRAGS)) if ctx.thorough else "%d listed combinations" % len(QUICK_PQF),
-        "forms": ["str", "bytes"],
+        "forms": {"str": "all request kinds", "bytes": BYTES_FORM_KINDS},
         "request_kinds": KINDS,
         "request_kinds_for_single_url_assignment": KINDS if ctx.thorough else QUICK_A_KINDS,
         "edit_alphabet": [repr(e) for e in B_EDITS],
